@@ -3,7 +3,7 @@ import ast
 
 from ..astx import (calls_in, dotted, norm, src, iter_nodes, assigned_targets, assigned_names,
                     const_value, is_const, parent_chain, aliases_of)
-from ..lib import (cfg_nodes_with_call, node_calls, returns, raises, stmt_assigns_attr, callee_last,
+from ..lib import (call_arg, relation, truth, other, cmp_views, core, holds_region, conditions, eval_conditions, relation_tests, atom_key, expand_condition, mode_mismatch_conditions, cfg_nodes_with_call, node_calls, returns, raises, raised_class, stmt_assigns_attr, callee_last,
                    is_name, node_roots, guard_region, compare_parts, find_test_nodes)
 from ..linear import ctext, lin, Lin, slice_bounds
 from ..loader import AnalysisError
@@ -145,10 +145,10 @@ def run(R):
         c.check(ok, f, loops[0] if loops else None, 'the text is fed to the parser one character at a time, in order', kind='ast', tag='char-by-char')
         dec = repo.func('screen:screen._decode')
         ks = [k for k in calls_in(dec.node) if callee_last(k) == 'decode']
-        ok = len(ks) == 1 and norm(ks[0].func.value) == 'self.decoder' and len(ks[0].args) == 1 and not any(kw.arg == 'final' and not is_const(kw.value, False) for kw in ks[0].keywords)
+        fin = call_arg(ks[0], 'final', 1) if len(ks) == 1 else None
+        ok = len(ks) == 1 and norm(ks[0].func.value) == 'self.decoder' and (fin is None or is_const(fin, False))
         gd_ = dec.cfg
-        tdn = [t for t in gd_.nodes if t.kind == 'test' and norm(t.ast) == 'self.decoder is not None']
-        ok = ok and len(tdn) == 1 and gd_.node_for(ks[0]) in guard_region(gd_, tdn[0], 'true')
+        ok = ok and ('self.decoder is None', False) in conditions(gd_, gd_.node_for(ks[0]))
         c.check(ok, dec, ks[0] if ks else None, 'bytes are decoded by the persistent incremental decoder without final=True (a character cut by a chunk boundary is completed by the next chunk)',
                 witness=norm(ks[0]) if ks else '', kind='ast', tag='decoder')
         sites = []
@@ -511,22 +511,24 @@ def check_cursor_pair(c, repo):
 def check_fsm_class(c, repo):
     f = repo.func('FSM:FSM.get_transition')
     g = f.cfg
-    tests = sorted([t for t in g.nodes if t.kind == 'test'], key=lambda t: t.id)
-    c.need(len(tests) == 3, 'FSM.get_transition: expected three tests')
-    t1, t2, t3 = tests
     sym, st = f.params[1], f.params[2]
-    ok1 = norm(t1.ast) == '(%s, %s) in self.state_transitions' % (sym, st)
-    r1 = [r for r in returns(f) if r in guard_region(g, t1, 'true')]
-    ok1 = ok1 and len(r1) == 1 and norm(r1[0].ast.value) == 'self.state_transitions[%s, %s]' % (sym, st)
-    c.check(ok1, f, t1.ast, 'first: the exact (symbol, state) entry', witness=norm(t1.ast), kind='ast', tag='exact-first')
-    ok2 = norm(t2.ast) == '%s in self.state_transitions_any' % st and t2 in guard_region(g, t1, 'false')
-    r2 = [r for r in returns(f) if r in guard_region(g, t2, 'true')]
-    ok2 = ok2 and len(r2) == 1 and norm(r2[0].ast.value) == 'self.state_transitions_any[%s]' % st
-    c.check(ok2, f, t2.ast, 'second: the per-state "any" entry', witness=norm(t2.ast), kind='ast', tag='any-second')
-    ok3 = norm(t3.ast) == 'self.default_transition is not None' and t3 in guard_region(g, t2, 'false')
-    r3 = [r for r in returns(f) if r in guard_region(g, t3, 'true')]
-    ok3 = ok3 and len(r3) == 1 and norm(r3[0].ast.value) == 'self.default_transition'
-    c.check(ok3, f, t3.ast, 'third: the default transition; otherwise ExceptionFSM', kind='ast', tag='default-third')
+    A1 = '(%s, %s) in self.state_transitions' % (sym, st)
+    A2 = '%s in self.state_transitions_any' % st
+    A3 = 'self.default_transition is None'
+    # each outcome, with the exact decisions that lead to it (however the chain of tests is written)
+    want = [('exact-first', 'first: the exact (symbol, state) entry', 'self.state_transitions[%s, %s]' % (sym, st), {(A1, True)}),
+            ('any-second', 'second: the per-state "any" entry', 'self.state_transitions_any[%s]' % st, {(A1, False), (A2, True)}),
+            ('default-third', 'third: the default transition; otherwise ExceptionFSM', 'self.default_transition', {(A1, False), (A2, False), (A3, False)})]
+    rets = returns(f)
+    c.need(len(rets) == 3, 'FSM.get_transition: expected three returns')
+    for tag, what, val, cond in want:
+        rr = [r for r in rets if norm(r.ast.value) == val]
+        got = conditions(g, rr[0]) if len(rr) == 1 else None
+        c.check(got == cond, f, rr[0].ast if rr else None, what, witness='returned under %s' % sorted(got or []), kind='path', tag=tag)
+    rs = raises(f)
+    got = conditions(g, rs[0]) if len(rs) == 1 else None
+    c.check(got == {(A1, False), (A2, False), (A3, True)} and raised_class(rs[0].ast, f) == 'ExceptionFSM', f, rs[0].ast if rs else None,
+            'ExceptionFSM exactly when none of the three applies', witness='raised under %s' % sorted(got or []), kind='path', tag='undefined-raises')
     # builders store (action, next_state) under the keys the lookup uses
     for name, key in (('add_transition', '(input_symbol, state)'), ('add_transition_any', 'state')):
         b = repo.func('FSM:FSM.' + name)
